@@ -82,6 +82,9 @@ func Stdin() *File {
 	} else {
 		stdinFile = newReadFile("/dev/stdin", step.Stdin.Data, step.Stdin.Plan)
 		stdinFile.kind = step.Stdin.Kind
+		if step.Stdin.Kind == "file" && step.Stdin.Offset > 0 && step.Stdin.Offset <= len(step.Stdin.Data) {
+			stdinFile.off = step.Stdin.Offset
+		}
 	}
 	if stdinFile.kind == "" {
 		stdinFile.kind = "pipe"
@@ -391,6 +394,35 @@ func (f *File) Sync() error {
 }
 
 func (f *File) Seek(offset int64, whence int) (int64, error) {
+	if f.pass != nil {
+		return f.pass.Seek(offset, whence)
+	}
+	if f.real != nil && !f.isPipe {
+		return f.real.Seek(offset, whence)
+	}
+	// a regular file opened for reading (FILE argument, redirected stdin) can seek
+	if f.real == nil && !f.isPipe && !f.isDir && f.kind != "pipe" && f.kind != "chardev" {
+		var base int64
+		switch whence {
+		case io.SeekStart:
+		case io.SeekCurrent:
+			base = int64(f.off)
+		case io.SeekEnd:
+			base = int64(len(f.data))
+		default:
+			return 0, &fs.PathError{Op: "seek", Path: f.name, Err: syscall.EINVAL}
+		}
+		n := base + offset
+		if n < 0 {
+			return 0, &fs.PathError{Op: "seek", Path: f.name, Err: syscall.EINVAL}
+		}
+		if n > int64(len(f.data)) {
+			n = int64(len(f.data))
+		}
+		f.off = int(n)
+		f.atEOF = false
+		return n, nil
+	}
 	return 0, &fs.PathError{Op: "seek", Path: f.name, Err: syscall.ESPIPE}
 }
 
